@@ -188,8 +188,17 @@ class Cache:
             # For union, visible columns must match (validated in verb function)
             # Hidden columns: are removed (we don't keep names for them and it is unlike they match in uuid)
             # A column that is constant in the left table need not be constant in the union.
+            # Its type is the common type of the two operands' columns.
             res.cols = {
-                uid: Col(col.name, node, uid, types.without_const(col._dtype), Ftype.ELEMENT_WISE)
+                uid: Col(
+                    col.name,
+                    node,
+                    uid,
+                    types.lca_type(
+                        [col._dtype, right_cache.cols[right_cache.name_to_uuid[self.uuid_to_name[uid]]]._dtype]
+                    ),
+                    Ftype.ELEMENT_WISE,
+                )
                 for uid, col in self.cols.items()
                 if uid in self.uuid_to_name
             }
